@@ -628,6 +628,21 @@ fn exec(ctx: &Ctx, st: &mut State, toks: &[&str]) -> String {
             st.layers.insert(l.to_string(), LayerBox { ptr: Box::into_raw(layer) });
             "ok".into()
         }
+        ["lflag", l, which, tr] => {
+            // stop_tracking() / start_tracking() on the parameters of a layer (0: first, 1: second, 2: both)
+            let ptr = st.layers.get(*l).expect("unknown layer").ptr;
+            let which: usize = which.parse().unwrap();
+            for (i, p) in unsafe { &mut *ptr }.parameters().into_iter().enumerate() {
+                if which == 2 || which == i {
+                    if *tr == "1" {
+                        p.start_tracking();
+                    } else {
+                        p.stop_tracking();
+                    }
+                }
+            }
+            "ok".into()
+        }
         ["lfwd", w, l, a] => {
             let ptr = st.layers.get(*l).expect("unknown layer").ptr;
             let r = unsafe { &*ptr }.forward(st.get(a).clone());
